@@ -42,7 +42,8 @@ class C05(WigBedProp):
                     nb.append((n, b))
             nb += [(256 * 256 + 1, 256), (65, 2), (1025, 2)]
             return nb
-        return [(n, b) for b in range(2, 7) for n in range(1, 41)]
+        # wide nodes as well: a node of more than 32 entries is where a reader would switch from scanning to bisecting
+        return [(n, b) for b in range(2, 7) for n in range(1, 41)] + [(n, b) for b in (33, 40, 64) for n in (b - 1, b + 1, 2 * b + 3, 150)]
 
     def cases(self, rng, tier):
         out = []
@@ -50,10 +51,12 @@ class C05(WigBedProp):
             r = rng.fork(k)
             nchrom = 1 + (n + b) % 3 if n >= 3 else 1
             names, sizes, data = layout(n, nchrom)
-            bed = (k % 4 == 3) and n <= 300
+            bed = (k % 4 == 3 or (32 < b < 200 and k % 2 == 1)) and n <= 300
+            # every third file through the caching reader: its index nodes are decoded once and searched again from the cache by
+            # the later queries of the case (a second code path over the same tree)
             o = {"compress": 0, "ips": 1, "bs": b, "zooms": "4" if n <= 400 else "none", "pass": 1 + k % 2, "inmem": k % 2,
-                 "rt": "mt", "threads": 2, "chan": 100, "src": "iter", "sort": "all"}
-            tags = {f"fanout_{b}" if b < 20 else "fanout_256ish"}
+                 "rt": "mt", "threads": 2, "chan": 100, "src": "iter", "sort": "all", "reader": "cached" if k % 3 == 0 or (32 < b < 200) else "plain"}
+            tags = {f"fanout_{b}" if b < 20 else ("fanout_33_to_64" if b < 200 else "fanout_256ish"), "reader_" + o["reader"]}
             depth, m = 1, n
             while m > b:
                 m = (m + b - 1) // b
